@@ -469,6 +469,7 @@ class C03(Check):
             st_["flood_cap"] = int(max(70, min(2500, 20.0 / knobs["STATE_MACHINE_TICKER"])))
         return {"mode": mode, "state": state, "strings": strings, "sched": draw_sched(rng), "knobs": knobs,
                 "answer_mode": rng.choice(["none", "dup", "bad_hbh", "bad_e2e", "late_dup"]),
+                "election_first": rng.random() < 0.4,
                 "net": {"max_latency": rng.choice([0.0005, 0.003]), "p_fragment": rng.choice([0.0, 0.3, 0.8]),
                         "max_fragments": rng.choice([2, 4, 12])},
                 "watchdog": 30, "horizon": 120.0}
@@ -714,6 +715,10 @@ class C03(Check):
             if state == "closing":
                 w.call("close", w.node.close)
                 w.wait_state(("Closing",), 5.0)
+            if state == "client_wicea" and scn.get("election_first"):
+                # the peer starts an election first (a valid CER while we await its CEA)
+                w.peer.send(C.cer(PEER_HOST, PEER_REALM, hbh=0x7e01, e2e=0x7e02))
+                sim.sleep(6 * tick)
             st["reached"] = True
             st["state_before"] = w.state()
             # ---- inject ---------------------------------------------------------
